@@ -1,12 +1,12 @@
 SPECIFICATION Spec
 CONSTANTS
-  DocIds = {1, 2, 3, 4, 5, 8}
-  Loadable = {"A"}
+  DocIds = {8, 11, 12}
+  Loadable = {"A", "X"}
   Vals = {0, 1}
-  MaxOps = 3
-  MaxK = 2
-  Feats = {"val", "cache", "use"}
-  AsCoded = TRUE
+  MaxOps = 5
+  MaxK = 0
+  Feats = {"val", "use", "schema"}
+  AsCoded = FALSE
   Extra = TRUE
   Forget = {}
 INVARIANT TypeOK
